@@ -634,8 +634,11 @@ def _divmod_const(a, b):
     return q, r
 
 
+DIV_WITNESS = True
+
+
 def _use_div_witness(a, b):
-    return (b.concrete and b.lo > 2 and (b.lo & (b.lo - 1)) != 0 and not a.concrete and a.w >= DIV_WITNESS_MIN_BITS
+    return (DIV_WITNESS and b.concrete and b.lo > 2 and (b.lo & (b.lo - 1)) != 0 and not a.concrete and a.w >= DIV_WITNESS_MIN_BITS
             and CUR is not None and (ABSTRACT_DIV_BITS is None or a.w + 1 <= ABSTRACT_DIV_BITS))
 
 
